@@ -36,13 +36,15 @@ import dns.zone
 from harness.core import VERIF, Ctx, enc_labels
 
 RULE = (
-    "cases come from one SplitMix64 state: chains of 1-5 zone versions over <= 12 owner names (apex, wildcard, "
-    "delegation + glue, mixed-case spellings, RRSIG with covers, out-of-zone glue), serials from a pool around 0, 2^31 "
-    "and 2^32-1 with RFC 1982 wrap-around; streams = AXFR, IXFR (multi-step), AXFR-style answer to IXFR, up-to-date, "
-    "UDP IXFR and its truncated form; every chunking of short streams, random chunkings (with empty messages) of long "
-    "ones; every single fault (drop, duplicate, swap, truncate, corrupt SOA serial / owner, rcode, question name/type, "
-    "wrong base serial, backwards serial, surplus after the final SOA) at every position; targets plain / versioned / "
-    "B-tree zone x relativize; a fraction goes through wire format and dns.query._inbound_xfr with a scripted socket. "
+    "cases come from one SplitMix64 state: chains of 1-5 valid zone versions over <= 12 owner names (apex, wildcard, "
+    "delegation + glue, mixed-case spellings, RRSIG with covers, NSEC, CNAME nodes, A<->CNAME replacements, TTL changes, "
+    "out-of-zone glue), serials from a pool around 0, 2^31 and 2^32-1 with RFC 1982 wrap-around; streams = AXFR, IXFR "
+    "(multi-step), AXFR-style answer to IXFR, up-to-date, UDP IXFR and its truncated form; every chunking of short "
+    "streams, random chunkings (with empty messages) of long ones; every single fault (drop, duplicate, swap, truncate, "
+    "corrupt SOA serial / owner, whole difference sequence missing, rcode, question name/type, wrong base serial, "
+    "backwards serial, surplus after the final SOA, constructor misuse) at every position; dns.query.inbound_xfr with "
+    "scripted sockets (UDP first, UseTCP retry, ONLY, NEVER, supplied / derived / malformed query); targets plain / "
+    "versioned / B-tree zone x relativize; a fraction goes through wire format and dns.query._inbound_xfr. "
     "A case is non-trivial if its key (stream, chunking, fault, target kind) is new"
 )
 TRUSTED_BASE = [
@@ -1198,8 +1200,8 @@ def replay(ctx: Ctx, obj: dict):
 
 
 LEVEL = {
-    "text": "Lean 4 theorems over an executable model of dns/xfr.py (Inbound.__init__/process_message/__exit__ as coded, driven by the message loop of dns.query._inbound_xfr, on an abstract zone = set of (owner, type, rdata) with working-copy transactions, and RFC 1982 serial comparison): AXFR, multi-step IXFR (any chain of versions with their computed difference sequences), AXFR-style answers to IXFR, the up-to-date answer and UDP IXFR converge to the target version and serial for every division of the record stream into messages; explicit fault transformers on every accepted stream (truncation at every length, bad rcode/question on every message of every chunking, wrong base serial, serial going backwards, UseTCP, surplus after the final SOA, missing/swapped first SOA, a deletion sent twice) raise and leave the zone as it was; for all message sequences whatsoever an error is never reported after a commit in the repaired variant, and the shipped variant differs from it only by the proved defect D11 (commit, then FormError). Tied to the code by a differential correspondence check (state after every message, outcome class, zone) over generated version chains, all chunkings of short streams, every single fault at every position, three zone classes x relativize, partly through wire format and dns.query._inbound_xfr with a scripted socket; the direct oracle checks target equality incl. TTLs, must-raise classes, atomicity and that no write transaction is left open.",
-    "note": "Trusted: Lean kernel + propext/Classical.choice/Quot.sound; the statements in lean/Props/C13.lean; the correspondence harness and its generators; name canonicalisation (lower-casing) in the driver. TTL/class, TSIG, timeouts and the CNAME exclusion rule are outside the model (TTL is checked by the direct oracle). Protocol-undetectable faults (e.g. a dropped non-SOA record of an AXFR) are only claimed atomic and model-conformant. Known finding D11: surplus rrsets after the final SOA in the same message are reported with FormError after the transfer was committed.",
-    "technique": "Lean 4 proof (state-machine refinement to set-level difference application, induction over version chains and message lists, atomicity invariant, variant bisimulation) + model-vs-implementation correspondence + direct oracle",
+    "text": "Lean 4 theorems over an executable model of dns/xfr.py as it is (Inbound.__init__/process_message/__exit__, the message loop of dns.query._inbound_xfr, the UDP-first/TCP-retry glue of dns.query.inbound_xfr, make_query/extract_serial_from_query, RFC 1982 comparison) on an abstract zone = set of (owner, type+covers, rdata, ttl) whose put carries the TTL minimisation and singleton rule of dns.rdataset and the CNAME exclusion of dns.node (tables regenerated from the tree): AXFR, multi-step IXFR (any chain of coherent versions with their computed difference sequences, A<->CNAME replacements and TTL changes included), AXFR-style answers, the up-to-date answer, UDP IXFR and UseTCP->TCP retry converge to the target version (records, TTLs, serial) for every division of the stream into messages; ixfr_denotes states what any applicable difference sequences yield (protocol-undetectable faults: dropped record, record moved across the delete/add boundary); fault families at every position (truncation, bad rcode/question on any message, wrong base / backwards serial, UseTCP, surplus after the final SOA, first rrset not the apex SOA, a dropped or type-corrupted SOA at every place of an IXFR, owner-corrupted SOA in add and delete mode, a deletion sent twice in any sequence, an addition read in delete mode) raise and leave the zone as it was; for all message sequences whatsoever an error is never reported after a commit (error_implies_unapplied, unconditional since 3feda1c). Tied to the code by a differential correspondence check (state after every message, outcome class, zone with TTLs) and a direct oracle (target equality, must-raise classes, atomicity, no transaction left open, retry behaviour).",
+    "note": "Trusted: Lean kernel + propext/Classical.choice/Quot.sound; the statements in lean/Props/C13.lean; the correspondence harness and its generators; name canonicalisation (lower-casing) in the driver; sockets are scripted (timeouts, TSIG outside the model). repair_changed_only_d11 / before_repair_surplus_was_committed record what commit 3feda1c changed; reverting it is reported as a violation with the D11 signature.",
+    "technique": "Lean 4 proof (state-machine refinement to set-level difference application up to set equality on coherent zones, induction over version chains and message lists, atomicity invariant, variant bisimulation) + model-vs-implementation correspondence + direct oracle",
     "design_ref": "DESIGN.md §7 C13",
 }
